@@ -318,7 +318,8 @@ Proof.
   intros ro1 ro2 o1 o2 c hw disk1 disk2 st1 st2 H1 H2 Hok Hs.
   rewrite (generate_rel (rest_make ro1 c) rrender (rest_make ro2 c) rrender c hw disk1
              (fun s1 s2 ov T => rest_make_rel ro1 ro2 c hw disk1 s1 s2 ov T H1 H2 Hok) (list_types_of CRest) o1 st1 st1).
-  apply (generate_blind_history (rest_make ro2 c) rrender (rest_same_out ro2 c) hw (rest_blind ro2 c _) CRest c Hs).
+  apply (generate_blind_history (rest_make ro2 c) rrender (rest_same_out ro2 c) hw (rest_blind ro2 c _) CRest c Hs);
+    intros e _; apply eligible_gen_enum_rest; auto.
 Qed.
 
 Theorem enum_unspecified_independent : forall o1 o2 c hw disk1 disk2 st1 st2,
@@ -326,7 +327,8 @@ Theorem enum_unspecified_independent : forall o1 o2 c hw disk1 disk2 st1 st2,
   generate (enum_make c) enum_render (list_types_of CEnum) c o1 hw disk1 st1 =
   generate (enum_make c) enum_render (list_types_of CEnum) c o2 hw disk2 st2.
 Proof.
-  intros. apply (generate_blind_history (enum_make c) enum_render (enum_same_out c) hw (enum_blind c _) CEnum c H).
+  intros. apply (generate_blind_history (enum_make c) enum_render (enum_same_out c) hw (enum_blind c _) CEnum c H);
+    intros e _; apply eligible_gen_enum_rest; auto.
 Qed.
 
 (* with -type=A,B the output names come from getGoFile: the same holds when every named type is declared in one
@@ -372,36 +374,90 @@ Proof.
   - exact Hd1.
 Qed.
 
+(* a property of generated files that every rendered source has and MergeSources preserves holds for every file
+   of the source map *)
+Section FilesProp.
+  Context {St Data : Type}.
+  Variable make : St -> pview -> string -> mres Data St.
+  Variable render : St -> Data -> afile.
+  Variable P : afile -> Prop.
+  Hypothesis Prender : forall st d, P (render st d).
+  Hypothesis Pmerge : forall fs m, (forall f, In f fs -> P f) -> merge fs = Some m -> P m.
+
+  Lemma gen_loop_prop : forall c hw disk types fmap st ov sm sl sm' sl' ov' st',
+    (forall e, In e sm -> P (snd e)) -> (forall f, In f sl -> P f) ->
+    gen_loop make render c hw disk types fmap st ov sm sl = Some (sm', sl', ov', st') ->
+    (forall e, In e sm' -> P (snd e)) /\ (forall f, In f sl' -> P f).
+  Proof.
+    induction types as [|T r IH]; intros fmap st ov sm sl sm' sl' ov' st' Hsm Hsl H; cbn [gen_loop] in H.
+    - injection H as <- <- _ _. auto.
+    - destruct (make st (pview_of (mk_view hw disk ov)) T) as [d s st1|st1|]; [| |discriminate].
+      + destruct (separate c).
+        * destruct (ahas _ sm); [discriminate|]. eapply IH; [| |exact H]; auto.
+          intros e He. clear - He Hsm Prender.
+          revert He. generalize (file_name c (all_in_one_file c (mk_view hw disk ov)) fmap T). intros k.
+          induction sm as [|[k' v'] sm IHs]; cbn; intros He.
+          -- destruct He as [<-|[]]. apply Prender.
+          -- destruct (k' =? k); cbn in He.
+             ++ destruct He as [<-|He]; [apply Prender | apply Hsm; right; auto].
+             ++ destruct He as [<-|He]; [apply Hsm; left; auto | apply IHs; auto]. intros e0 H0. apply Hsm. right. auto.
+        * eapply IH; [| |exact H]; auto. intros f Hf. apply in_app_or in Hf. destruct Hf as [Hf|[<-|[]]]; auto.
+      + eapply IH; eauto.
+  Qed.
+
+  Lemma generate_prop : forall lt c o hw disk st sm,
+    generate make render lt c o hw disk st = Some sm -> forall e, In e sm -> P (snd e).
+  Proof.
+    intros lt c o hw disk st sm H. unfold generate in H.
+    destruct (confirm_types lt c o (mk_view hw disk [])) as [[types fmap]|]; [|discriminate].
+    destruct (gen_loop make render c hw disk types fmap st [] [] []) as [[[[sm1 sl1] ov1] s1]|] eqn:E; [|discriminate].
+    destruct (gen_loop_prop _ _ _ _ _ _ _ _ _ _ _ _ _ (fun e (H0 : In e []) => match H0 with end) (fun f (H0 : In f []) => match H0 with end) E) as [H1 H2].
+    destruct (merge sl1) as [m|] eqn:Em; injection H as <-; auto.
+    intros e He. set (k := file_name c (all_in_one_file c (mk_view hw disk ov1)) fmap "") in *.
+    clearbody k. clear - He H1 H2 Em Pmerge.
+    induction sm1 as [|[k' v'] sm1 IHs]; cbn in He.
+    - destruct He as [<-|[]]. cbn. eapply Pmerge; eauto.
+    - destruct (k' =? k); cbn in He.
+      + destruct He as [<-|He]; [cbn; eapply Pmerge; eauto | apply H1; right; auto].
+      + destruct He as [<-|He]; [apply H1; left; auto | apply IHs; auto]. intros e0 H0. apply H1. right. auto.
+  Qed.
+End FilesProp.
+
 Section TwiceFix.
   Variable p : pkg.
   Variable c : cmd.
-  Hypothesis Hsep : separate c = true.          (* one file per type: Clean does nothing *)
-  Hypothesis H : forall o1 o2 prior1 prior2, legal o1 -> legal o2 -> run_generate o1 p prior1 c = run_generate o2 p prior2 c.
+  Hypothesis Hclean : forall v dir, clean c (all_in_one_file c v) dir = dir.     (* Clean is not active: -sep, -type=A,B or -file= *)
 
-  Lemma clean_sep : forall aio dir, clean c aio dir = dir.
-  Proof. intros. unfold clean. rewrite Hsep. reflexivity. Qed.
-
+  (* If the source map computed over the directory the first run left equals the one computed over the directory it
+     found (what the independence theorems establish), the second run writes the same files again. *)
   Theorem run_twice_fixpoint : forall o1 o2 prior w dir,
     legal o1 -> legal o2 -> NoDup (keys prior) ->
     run o1 p prior c = ODone w dir ->
-    exists w' dir', run o2 p dir c = ODone w' dir' /\ listing dir' = listing dir /\
-                    Permutation w' w.
+    run_generate o2 p dir c = run_generate o1 p prior c ->
+    exists w' dir', run o2 p dir c = ODone w' dir' /\ listing dir' = listing dir /\ Permutation w' w.
   Proof.
-    intros o1 o2 prior w dir H1 H2 Hn Hr. unfold run in *.
-    rewrite (H o2 o1 dir prior H2 H1).
+    intros o1 o2 prior w dir H1 H2 Hn Hr H. unfold run in *. rewrite H.
     destruct (run_generate o1 p prior c) as [sm|] eqn:Eg; [|discriminate].
     pose proof (run_generate_nodup _ _ _ _ _ Eg) as Hsm.
     destruct sm as [|e sm'].
-    - injection Hr as <- <-. exists [], (fold_left (fun d e => upsert (fst e) (snd e) d) (o2 _ []) (fold_left (fun d e => upsert (fst e) (snd e) d) (o1 _ []) prior)).
+    - injection Hr as <- <-.
       assert (E1 : o1 (string * afile)%type [] = []) by (apply Permutation_nil, Permutation_sym, H1).
       assert (E2 : o2 (string * afile)%type [] = []) by (apply Permutation_nil, Permutation_sym, H2).
-      rewrite E1, E2. cbn. auto.
-    - rewrite !clean_sep in *. injection Hr as <- <-.
+      rewrite E1, E2. cbn. eexists. eexists. split; [reflexivity|]. split; auto.
+    - rewrite !Hclean in *. injection Hr as <- <-.
       eexists. eexists. split; [reflexivity|]. split.
       + exact (second_write o1 o2 (e :: sm') prior H1 H2 Hsm Hn).
       + apply Permutation_map. eapply perm_trans; [apply H2 | apply Permutation_sym, H1].
   Qed.
 End TwiceFix.
+
+Lemma clean_inactive : forall c, separate c = true \/ c_file c <> "" -> forall v dir, clean c (all_in_one_file c v) dir = dir.
+Proof.
+  intros c [Hs|Hf] v dir; unfold clean.
+  - rewrite Hs. reflexivity.
+  - destruct (separate c); auto. unfold all_in_one_file.
+    destruct (String.eqb_spec (c_file c) "") as [E|E]; [contradiction|]. reflexivity.
+Qed.
 
 (* ---------------------------------------------------------------- instances and witnesses *)
 Theorem enum_run_independent : forall p c o1 o2 prior1 prior2,
@@ -420,26 +476,34 @@ Proof.
   apply rest_unspecified_independent; auto.
 Qed.
 
+(* generate twice = generate once, for every form in which Clean is not active (-sep, or -file=f: the usual
+   //go:generate line, all-in-one included) *)
 Theorem enum_twice_fixpoint : forall p c o1 o2 prior w dir,
-  c_sub c = CEnum -> specified c = false -> c_sepflag c = true ->
+  c_sub c = CEnum -> specified c = false -> c_sepflag c = true \/ c_file c <> "" ->
   legal o1 -> legal o2 -> NoDup (keys prior) ->
   run o1 p prior c = ODone w dir ->
   exists w' dir', run o2 p dir c = ODone w' dir' /\ listing dir' = listing dir /\ Permutation w' w.
 Proof.
-  intros p c o1 o2 prior w dir Hc Hs Hsep. apply run_twice_fixpoint.
-  - unfold separate. rewrite Hs, Hsep. reflexivity.
-  - intros. apply enum_run_independent; auto.
+  intros p c o1 o2 prior w dir Hc Hs Hm H1 H2 Hn Hr.
+  apply (run_twice_fixpoint p c (clean_inactive c (match Hm with
+                                                    | or_introl E => or_introl (eq_trans (f_equal (fun b => specified c || b) E) (orb_true_r _))
+                                                    | or_intror E => or_intror E
+                                                    end)) o1 o2 prior w dir H1 H2 Hn Hr).
+  apply enum_run_independent; auto.
 Qed.
 
 Theorem rest_twice_fixpoint : forall p c o1 o2 prior w dir,
-  c_sub c = CRest -> specified c = false -> c_sepflag c = true -> rest_pkg_ok (p_hw p) ->
+  c_sub c = CRest -> specified c = false -> c_sepflag c = true \/ c_file c <> "" -> rest_pkg_ok (p_hw p) ->
   legal o1 -> legal o2 -> NoDup (keys prior) ->
   run o1 p prior c = ODone w dir ->
   exists w' dir', run o2 p dir c = ODone w' dir' /\ listing dir' = listing dir /\ Permutation w' w.
 Proof.
-  intros p c o1 o2 prior w dir Hc Hs Hsep Hok. apply run_twice_fixpoint.
-  - unfold separate. rewrite Hs, Hsep. reflexivity.
-  - intros. apply rest_run_independent; auto.
+  intros p c o1 o2 prior w dir Hc Hs Hm Hok H1 H2 Hn Hr.
+  apply (run_twice_fixpoint p c (clean_inactive c (match Hm with
+                                                    | or_introl E => or_introl (eq_trans (f_equal (fun b => specified c || b) E) (orb_true_r _))
+                                                    | or_intror E => or_intror E
+                                                    end)) o1 o2 prior w dir H1 H2 Hn Hr).
+  apply rest_run_independent; auto.
 Qed.
 
 (* K_rest_alias_dup: two parameters aliased to one name -- two legal iteration orders, two outputs *)
